@@ -56,7 +56,7 @@ pub struct C13World {
     pub ext_codes: Vec<(String, String)>,
 }
 
-fn module_text(id: &str, deps: &mut [Dep], lazy: Option<&str>, unused: Option<&str>) -> String {
+pub fn module_text(id: &str, deps: &mut [Dep], lazy: Option<&str>, unused: Option<&str>) -> String {
     let mut lines: Vec<String> = Vec::new();
     lines.push(format!("std.trace(\"EVAL:{id}\", {{"));
     lines.push(format!("  id: \"{id}\","));
@@ -1347,7 +1347,11 @@ pub fn run_batch(tier: &str, root: u64, workers: usize, scale: u64) -> i32 {
         let mut st = Stats::default();
         let r = std::panic::catch_unwind(std::panic::AssertUnwindSafe(|| run_one(root, i, max_plans, &mut st)));
         match r {
-            Ok(v) => (st, v),
+            Ok(v) => {
+                // only the first failing world per violation class pays for minimisation
+                let v = v.map(|v| if crate::util::claim_minimisation(&v.class) { crate::climin::minimise_c13(&v) } else { v });
+                (st, v)
+            }
             Err(p) => {
                 eprintln!("HARNESS ERROR: {} @ {}", crate::util::panic_message(&p), crate::util::last_panic_loc());
                 std::process::exit(2);
